@@ -683,6 +683,9 @@ def run_attached(shard, ctx):
                             ctx.fail("C13:attached.attach_raises.%s" % type(e).__name__, "attach (%s, device type %02Xh) raised %s" % (how, devtype, e), {"how": how, "devtype": devtype}, exc=e)
                             continue
                         del log[:]
+                        if s.blocksize != 512:
+                            ctx.fail("C13:attached.block_size_forgotten", "the facade was created with block size 512; after %s it has %r" % (how, s.blocksize), {"how": how, "devtype": devtype})
+                            continue
                         a = dict(required_args(c, rng))
                         if "blocksize" in a and c.xfer != "ata":
                             a["blocksize"] = 512
